@@ -373,3 +373,32 @@ def sibling_fallbacks(ctx: Ctx) -> None:
     ctx.ob("StandardNode.bind: empty fall-back agrees with its sibling (b'' when the datatype is bytes)", s_bytes or not wraps, at=std, node=sn,
            msg="the fall-back is '' even when datatype.type is bytes and is then passed to datatype.wrapper (a bytes subclass): "
                "<v xsi:type=\"xs:hexBinary\"/> raises TypeError: string argument without an encoding")
+
+
+GENERIC_ATTRS = {"qname", "children", "text", "tail", "attributes"}
+
+
+@rule("C15.R8")
+def generic_attributes_read_only_off_generic_values(ctx: Ctx) -> None:
+    """A value taken from the collected params is read as a generic element (.qname, .children ...) only after an isinstance test against the generic class."""
+    en = ctx.repo.cls(f"{P}.nodes.element:ElementNode")
+    n = 0
+    for m in en.methods.values():
+        # locals assigned from params[...] / params.get(...)
+        srcs = {}
+        for st, tgt, v in __import__("xsa.q", fromlist=["stores"]).stores(m.node):
+            if isinstance(tgt, ast.Name) and v is not None and (unparse(v).startswith("params[") or unparse(v).startswith("params.get(")):
+                srcs[tgt.id] = st
+        if not srcs:
+            continue
+        g = build_cfg(m.node)
+        for node in walk_no_nested(m.node):
+            if isinstance(node, ast.Attribute) and isinstance(node.value, ast.Name) and node.value.id in srcs and node.attr in GENERIC_ATTRS and isinstance(node.ctx, ast.Load):
+                n += 1
+                cn = g.node_of(node)
+                name = node.value.id
+                guards = [t for t in g.nodes if t.kind == "test" and isinstance(t.ast, ast.Call) and unparse(t.ast.func) == "isinstance" and unparse(t.ast.args[0]) == name]
+                ok = cn is not None and any(g.only_if(cn.id, t.id, True) for t in guards)
+                ctx.ob(f"ElementNode.{m.name}: {name}.{node.attr} is read only after isinstance({name}, <generic element>)", ok, at=m, node=node,
+                       msg=f"{name} is whatever an earlier element was bound to (possibly a user model): reading .{node.attr} on it raises AttributeError, not a parser error")
+    ctx.floor("generic attribute reads on collected values", n, 1)
